@@ -483,6 +483,14 @@ def run(rep, tier):
             strdecode.clause(fx, rep, 'quick')
         except AnalysisBroken as ex:
             rep.broken.append(str(ex))
+    # ... and both number parsers (the digit scanners are per back end) agree with exact arithmetic on every third text
+    # of the number corpus (sv/numvalue.py; the full corpus runs under C04)
+    from .. import numvalue
+    for fx in (f1, f3):
+        try:
+            numvalue.clause(fx, rep, 'quick', every=3)
+        except AnalysisBroken as ex:
+            rep.broken.append(str(ex))
     from .. import scaneval
     for fx in (f1, f3):
         try:
